@@ -42,7 +42,9 @@ DefaultSegs == <<
   [stem |-> "slideLayout",     num |-> 11,  exts |-> <<"xml">>],
   [stem |-> "media",           num |-> 0,   exts |-> <<"mp4">>,  pad |-> 1],
   [stem |-> "chart",           num |-> 2147483647, exts |-> <<"xml">>],
-  [stem |-> "notesSlide",      num |-> 12,  exts |-> <<"xml">>]
+  [stem |-> "notesSlide",      num |-> 12,  exts |-> <<"xml">>],
+  [stem |-> "image",           num |-> 1,   exts |-> <<"", "png">>],      \* "image1..png": two consecutive periods INSIDE a segment (no dot segment)
+  [stem |-> "..a",             num |-> -1,  exts |-> <<"xml">>]            \* "..a.xml": a segment that merely begins with two periods
 >>
 
 SegIds(n) == 1..n
